@@ -25,6 +25,9 @@ type Case struct {
 	// by plain assignment, the others by ReflectTo of their wrapped value.
 	H      []*Val `json:"history,omitempty"`
 	Family string `json:"family,omitempty"`
+	// TS: the struct types of the case are derived through Reflector.TypeSetFromReflect of this argument list (family
+	// typeset, typeset.go) instead of one TypeFromReflect per struct
+	TS *TSpec `json:"typeset,omitempty"`
 }
 
 // Obs: everything observed on the implementation for one case.
@@ -62,6 +65,13 @@ type Obs struct {
 	AnonInst                               bool
 	AnonBackErr, AnonBackText              string
 	AnonDeep                               bool
+	// family typeset: the entries of the type set in their order; what TypeFromReflect gives for the same structs one by
+	// one; the entries of the type set derived from the same structs in another order
+	TSet                    []TSObs
+	TSRef                   map[string]TSObs
+	TSRefErr, TSRefText     string
+	TSOther                 map[string]TSObs
+	TSOtherErr, TSOtherText string
 }
 
 // ObjObs: the struct <-> object clause, observed for cases whose shape is a struct or a pointer to one.
@@ -227,6 +237,23 @@ func runCase(cs *Case) *Obs {
 		structShapesOfVal(cs.S, cs.V, seen, &structs)
 		typeOf := map[string]px.ObjectType{}
 		o.RegErr, o.RegText = guarded(func() {
+			if cs.TS != nil {
+				byName, obs := deriveTypeSet(c, cs.TS)
+				o.TSet = obs
+				for _, it := range cs.TS.Items {
+					s := tsShape(cs.TS, it.G)
+					env.known[s.RType()] = s
+					if ot, ok := byName[s.N]; ok {
+						typeOf[s.N] = ot
+					}
+				}
+				for _, s := range structs {
+					if typeOf[s.N] == nil {
+						panic(fmt.Errorf("the type set holds no type %s", s.N))
+					}
+				}
+				return
+			}
 			for _, s := range structs {
 				rt := s.RType()
 				var parent px.Type
@@ -242,6 +269,10 @@ func runCase(cs *Case) *Obs {
 		})
 		if o.RegErr != "" {
 			return
+		}
+		if cs.TS != nil {
+			o.TSRef, o.TSRefErr, o.TSRefText = tsReference(cs.TS)
+			o.TSOther, o.TSOtherErr, o.TSOtherText = tsOtherOrder(cs.TS)
 		}
 		rt := cs.S.RType()
 		gv := Build(cs.S, cs.V)
@@ -513,14 +544,24 @@ func keys(m map[string]bool, only ...string) []string {
 func directCheck(cs *Case, o *Obs, res *lib.Result) (violated bool) {
 	cl := classesOf(cs)
 	input := map[string]interface{}{"shape": cs.S, "value": cs.V, "history": cs.H, "go_type": cs.S.String(), "go_value": cs.V.Text(cs.S)}
+	if cs.TS != nil {
+		input["typeset"] = cs.TS
+		input["typeset_call"] = cs.TS.text()
+	}
 	viol := func(clause, what string, tags []string) {
 		violated = true
 		res.Violate(lib.Violation{Clause: clause, What: what + "  [" + cs.S.String() + " = " + cs.V.Text(cs.S) + "]", Input: input, Tags: tags})
 	}
 	if o.RegErr != "" {
-		viol("struct-object", "deriving the object types of the structs fails: "+o.RegErr+" "+o.RegText, nil)
+		call := ""
+		if cs.TS != nil {
+			call = cs.TS.text() + ": "
+		}
+		viol("struct-object", call+"deriving the object types of the structs fails: "+o.RegErr+" "+o.RegText, nil)
 		return
 	}
+	// the type set itself (family typeset): every member is what its struct alone says, whatever the order of the list
+	tsDirect(cs, o, viol)
 	// clause 1: wrap then reflect back gives a deeply equal value
 	rtTags := keys(cl.outer, clsNilFast, clsPtrPtr, clsPtrNil)
 	outside := cl.outer[clsIfaceDyn]
